@@ -105,6 +105,10 @@ def _cfg_small(dim):
     return [{dim: [_ins(sp, 1, ANCHORS[i % 3])]} for i, sp in enumerate(SMALL)]
 
 
+def _cfg_wave11(dim):
+    return [{dim: [_ins(sp, 1, a)]} for sp, a in ((([2], [1]), "bottom"), (([1], [3]), "top"), (([3], [2]), 2))]
+
+
 def _cfg_repeats(dim):
     return [{dim: [_ins(sp, 1, ANCHORS[i % 3])]} for i, sp in enumerate(REPEATS)]
 
@@ -182,6 +186,10 @@ SPACES = {
     "small_cols_cat_x_cat": ("cat_x_cat_T", _cfg_small("cols"), 2, 4),
     "small_wave_rows": ("date_x_cat", _cfg_small("rows"), 2, 3),
     "small_wave_cols": ("cat_x_date", _cfg_small("cols"), 2, 3),
+    # one-minus-one wave differences need three respondents before weighted and unweighted percentages part: two with
+    # different weights in the addend wave (different opposing categories) and one in the subtrahend wave
+    "wave11_rows": ("date_x_cat", _cfg_wave11("rows"), 3, 4),
+    "wave11_cols": ("cat_x_date", _cfg_wave11("cols"), 3, 4),
 }
 
 
